@@ -28,6 +28,10 @@ def run(cfg, routes, data_routes, candles, warmup_candles=None, hyperparameters=
     candles: {symbol: ndarray}.  Returns research.backtest's result."""
     jesse_env.setup()
     from jesse import research
+    import jesse.helpers as jh
+    # the process-wide config memo survives research.backtest calls (property C11 is about exactly that);
+    # every harness session must start from a clean memo so that sessions do not contaminate each other
+    jh.CACHED_CONFIG.clear()
     ex = cfg['exchange']
     rs = [{'exchange': ex, 'strategy': s, 'symbol': sym, 'timeframe': tf} for (sym, tf, s) in routes]
     ds = [{'exchange': ex, 'symbol': sym, 'timeframe': tf} for (sym, tf) in data_routes]
